@@ -96,8 +96,24 @@ def run(F, R):
         R.check("returned" in tags or "try" in tags, "C13.R4", "scan_impl:read_split-error-propagated", f"a failing split is dropped ({sorted(tags)})", c.fn.loc(c.bb), dict(consumers=sorted(tags)))
     col = [c for c in si.calls() if c.name.rsplit("::", 1)[-1] == "collect" and "Result<" in F.fn(si.path).local_ty(place_local(c.dest))]
     R.check(bool(col) and all("try" in result_consumers(si, c) for c in col), "C13.R4", "scan_impl:collect-result-?", "the per-split Results are not collected into a Result that is propagated", si.loc(), dict(n=len(col)))
-    it = [c for c in si.calls() if c.name.rsplit("::", 1)[-1] in ("par_iter", "iter", "into_par_iter", "into_iter") and ".splits" in k9.kexpr(si, c.args[0])]
-    R.check(bool(it), "C13.R4", "scan_impl:iterates-self.splits", "scan_impl does not iterate self.splits", si.loc(), nontrivial=False)
+    its = [c for c in si.calls() if c.name.rsplit("::", 1)[-1] in ("par_iter", "iter", "into_par_iter", "into_iter") and ("Split" in c.self_ty + " ".join(c.argtys))]
+    srcs = [k9.kexpr(si, c.args[0]) for c in its]
+    # the assigned splits are read one by one exactly as assigned: no regrouping/merging function between self.splits and read_split
+    def regroup_ok(e):
+        if e == "⟨1⟩.splits":
+            return True
+        # splits pass through an in-crate regrouping function: it must at least tell row groups apart (row offsets
+        # are relative to the row group), i.e. read Split.row_group as well as the offsets
+        import re
+        fns = [x for x in re.findall(r"([A-Za-z_:<>]+)\(", e) if x in F.bodies]
+        if not fns:
+            return False
+        for fnp in fns:
+            rd = {fld for g in F.family(fnp) for bb, acc, fld, a, line in g.field_accesses() if a == SPLIT}
+            if not {"row_group", "row_offset", "num_rows"} <= rd:
+                return False
+        return True
+    R.check(bool(its) and all(regroup_ok(e) for e in srcs), "C13.R4", "scan_impl:reads-each-assigned-split-as-is", f"read_split is not mapped directly over self.splits (source: {[e[:60] for e in srcs]}): splits regrouped before reading can cross row-group boundaries, whose row offsets are relative", si.loc(), dict(sources=[e[:80] for e in srcs]))
     # no filter/skip/take adaptor on the split iterator
     bad = [c.name for c in si.calls() if c.name.rsplit("::", 1)[-1] in ("filter", "skip", "take", "step_by", "filter_map", "take_while", "skip_while") ]
     R.check(not bad, "C13.R4", "scan_impl:no-split-dropping-adaptor", f"split iteration passes through {bad}", si.loc(), nontrivial=False)
